@@ -13,7 +13,7 @@ from typing import Dict, List, Optional, Set, Tuple
 
 from ..boolx import BoolEval, Unknown
 from ..model import AnalysisError
-from ..util import dotted, norm, short, walk_no_nested
+from ..util import dotted, flatten_boolop, norm, short, walk_no_nested
 
 VMOD = "apischema.json_schema.versions"
 TMOD = "apischema.json_schema.types"
@@ -117,9 +117,41 @@ def null_test_container(t) -> Optional[str]:
     return None
 
 
+def unroll_constant_loops(fn):
+    """`for a, b in (("x", "y"), ...): body` over literal tuples of constants -> the body repeated with the names replaced
+    by the constants (so that computed keys `result[a]` become the constant keys the effect analysis reads)."""
+    import copy
+
+    class Sub(ast.NodeTransformer):
+        def __init__(self, mapping):
+            self.mapping = mapping
+
+        def visit_Name(self, n):
+            if n.id in self.mapping and isinstance(n.ctx, ast.Load):
+                return ast.copy_location(copy.deepcopy(self.mapping[n.id]), n)
+            return n
+
+    class Unroll(ast.NodeTransformer):
+        def visit_For(self, node):
+            self.generic_visit(node)
+            it, tg = node.iter, node.target
+            if isinstance(it, ast.Tuple) and it.elts and all(isinstance(e, ast.Tuple) for e in it.elts) and isinstance(tg, ast.Tuple) and all(isinstance(t, ast.Name) for t in tg.elts) \
+                    and all(len(e.elts) == len(tg.elts) and all(isinstance(x, (ast.Constant, ast.Name)) for x in e.elts) for e in it.elts) and not node.orelse:
+                out = []
+                for e in it.elts:
+                    mapping = {t.id: x for t, x in zip(tg.elts, e.elts)}
+                    for st in node.body:
+                        out.append(Sub(mapping).visit(copy.deepcopy(st)))
+                return out
+            return node
+    new = Unroll().visit(copy.deepcopy(fn))
+    ast.fix_missing_locations(new)
+    return new
+
+
 def analyse_converter(model, fi, unsupported_name="OPEN_API_3_0_UNSUPPORTED") -> Effects:
     eff = Effects()
-    fn = fi.node
+    fn = unroll_constant_loops(fi.node)
     parents = {c: p for p in ast.walk(fn) for c in ast.iter_child_nodes(p)}
 
     def enclosing_tests(n):
@@ -177,6 +209,25 @@ def analyse_converter(model, fi, unsupported_name="OPEN_API_3_0_UNSUPPORTED") ->
         for k, call in pops_in(st):
             tests = enclosing_tests(st)
             on_all_paths = all(same_key_presence(t, k) for t in tests) or (len(call.args) >= 2 and not tests)
+            # `if K in result and not isinstance(result[K], bool): ... result.pop(K)`: the numeric form of K is removed
+            conj_ = [c_ for t in tests for c_ in flatten_boolop(t, ast.And)]
+            numeric = [c_ for c_ in conj_ if norm(c_) == f"not isinstance(result['{k}'], bool)"]
+            if numeric and all(same_key_presence(c_, k) or c_ in numeric for c_ in conj_):
+                eff.removed[f"{k}(number)"] = call
+                for a in added_here:
+                    eff.flows.append((f"{k}(number)", a))
+                # value kept in a local, stored under other keys later: `value = result.pop(K)` ... `result[B], result[K] = value, True`
+                if isinstance(st, ast.Assign) and isinstance(st.targets[0], ast.Name) and st.value is call:
+                    loc = st.targets[0].id
+                    for later in ast.walk(fn):
+                        if isinstance(later, ast.Assign) and later.lineno > st.lineno:
+                            tgs = later.targets[0].elts if isinstance(later.targets[0], ast.Tuple) else later.targets
+                            vals = later.value.elts if isinstance(later.value, ast.Tuple) and isinstance(later.targets[0], ast.Tuple) else [later.value] * len(tgs)
+                            for t_, v_ in zip(tgs, vals):
+                                kk = key_of_subscript(t_)
+                                if kk is not None and any(isinstance(x, ast.Name) and x.id == loc for x in ast.walk(v_)):
+                                    eff.flows.append((f"{k}(number)", kk))
+                                    eff.added.setdefault(kk, later)
             flows = [a for a in added_here if a != k or True]
             if on_all_paths:
                 eff.removed[k] = call
@@ -487,6 +538,8 @@ def check(ctx):
 
 def mutants(mb):
     V = "apischema/json_schema/versions.py"
+    mb.add_text("exclusive-bounds-kept-numeric", V, '        ("maximum", "exclusiveMaximum", min),\n', '', "C18.R1", "exclusiveMaximum(number)")
+    mb.add_text("exclusive-bounds-dropped", V, "                result[bound], result[exclusive] = value, True\n", "                pass\n", "C18.R2", "exclusiveM")
     mb.add_text("isolate-ref-in-place", V, '        schema["allOf"] = [*schema.get("allOf", ()), {"$ref": schema.pop("$ref")}]\n', '        schema.setdefault("allOf", []).append({"$ref": schema.pop("$ref")})\n', "C18.R8", "isolate_ref")
     mb.add_text("anyof-extended-in-place", V, '                result["anyOf"] = any_of\n', '                result.setdefault("anyOf", []).extend(any_of)\n', "C18.R8", "to_open_api_3_0")
     mb.add_text("type-guard-sequence", V, '    if "type" in result and not isinstance(result["type"], (str, JsonType)):\n', '    if isinstance(result.get("type"), Sequence) and not isinstance(result.get("type"), str):\n', "C18.R7", "type as set")
